@@ -3,6 +3,7 @@ package main
 import (
 	"fmt"
 	"go/constant"
+	"go/token"
 	"go/types"
 	"sort"
 	"strings"
@@ -17,7 +18,7 @@ func init() {
 			"R2 no ambient input: the import set of the core packages is within the pure whitelist, there is no go statement, channel operation, select, or range over a map outside init; " +
 			"R3 no aliasing out of a parse: no ast node type can reach *Lexer/*Parser/*token.File through its fields, tokens stored in the AST are Clone() results, File.lines is written only by File.init on its own receiver. " +
 			"Together: every write of a call goes to memory allocated in that call or owned by its Parser, every read of shared memory reads data immutable after initialisation. Assumes the standard-library functions used are pure.",
-		Rules: []ruleFn{ruleC18R1, ruleC18R2, ruleC18R3, ruleC18R4, ruleC18R5, ruleC13R5},
+		Rules: []ruleFn{ruleC18R1, ruleC18R2, ruleC18R3, ruleC18R4, ruleC18R5, ruleC13R5, ruleC18R6, ruleC18R7},
 	})
 }
 
@@ -772,5 +773,188 @@ func ruleC18R5(w *World, r *Report) {
 	}
 	if n < 2 {
 		r.errorf("expected the iterators returned by ast.Preorder and ast.PreorderMany, found %d", n)
+	}
+}
+
+// ruleC18R6: text is data, not a format. A formatting function whose format argument is computed from the
+// input (a source line, a node's SQL) rewrites every '%' in it: '%d' in a quoted line becomes %!d(MISSING).
+func ruleC18R6(w *World, r *Report) {
+	const rule = "C18/R6"
+	r.rule(rule, "every call of a printf-style function in the core packages (fmt.*f, and the module's own wrappers that forward a format and ...any to fmt) passes a constant format string, or forwards its own format parameter unchanged", 100)
+	isAnySlice := func(t types.Type) bool {
+		sl, ok := t.Underlying().(*types.Slice)
+		if !ok {
+			return false
+		}
+		ifc, ok := sl.Elem().Underlying().(*types.Interface)
+		return ok && ifc.NumMethods() == 0
+	}
+	n := 0
+	for _, fn := range w.ModFns {
+		if !corePkg(fnPkgPath(fn)) || fn.Blocks == nil {
+			continue
+		}
+		for _, b := range fn.Blocks {
+			for _, in := range b.Instrs {
+				ci, ok := in.(ssa.CallInstruction)
+				if !ok {
+					continue
+				}
+				com := ci.Common()
+				sig := com.Signature()
+				if sig == nil || !sig.Variadic() || sig.Params().Len() < 2 {
+					continue
+				}
+				np := sig.Params().Len()
+				if !isAnySlice(sig.Params().At(np-1).Type()) || !isStringType(sig.Params().At(np-2).Type()) {
+					continue
+				}
+				sc := com.StaticCallee()
+				if sc == nil || sc.Pkg == nil {
+					continue
+				}
+				pkg := sc.Pkg.Pkg.Path()
+				if pkg != "fmt" && !corePkg(pkg) {
+					continue
+				}
+				if pkg == "fmt" && !strings.HasSuffix(sc.Name(), "f") {
+					continue
+				}
+				off := 0
+				if sig.Recv() != nil {
+					off = 1
+				}
+				if len(com.Args) < np+off {
+					continue
+				}
+				format := com.Args[np-2+off]
+				n++
+				construct := fmt.Sprintf("format of %s in %s #%d", funcName(sc), funcName(fn), n)
+				switch x := format.(type) {
+				case *ssa.Const:
+					r.ok(rule, construct, w.pos(ci.Pos()), "constant format")
+				case *ssa.Parameter:
+					if isStringType(x.Type()) && x.Parent() == fn {
+						r.ok(rule, construct, w.pos(ci.Pos()), "forwards its own format parameter")
+					} else {
+						r.bad(rule, construct, w.pos(ci.Pos()), "the format is a value of the enclosing function that is not its format parameter")
+					}
+				default:
+					r.bad(rule, construct, w.pos(ci.Pos()), "the format string is computed ("+format.String()+"): every '%' of the text it is built from is read as a verb and rewritten (\"%d\" -> \"%!d(MISSING)\")")
+				}
+			}
+		}
+	}
+	if n < 30 {
+		r.errorf("only %d printf-style calls found", n)
+	}
+}
+
+// ruleC18R7: unparsing and position queries only read the tree. A SQL() that caches its text in the node, a Pos()
+// that memoises: the result of the next call depends on the calls before it, two goroutines printing the same tree
+// race, and a printed tree is no longer equal to a freshly parsed one.
+func ruleC18R7(w *World, r *Report) {
+	const rule = "C18/R7"
+	r.rule(rule, "no SQL(), Pos() or End() method of an ast node type, and no function of package ast reachable from one, stores through an address derived from its parameters (the receiver, its fields, what they point to): the consumers of a tree do not write it", 500)
+	astPath := modRoot + "/ast"
+	// reachable set
+	reach := map[*ssa.Function]bool{}
+	var work []*ssa.Function
+	for _, fn := range w.ModFns {
+		if fnPkgPath(fn) != astPath || fn.Signature.Recv() == nil || fn.Blocks == nil {
+			continue
+		}
+		switch fn.Name() {
+		case "SQL", "Pos", "End":
+			if !reach[fn] {
+				reach[fn] = true
+				work = append(work, fn)
+			}
+		}
+	}
+	for len(work) > 0 {
+		fn := work[0]
+		work = work[1:]
+		for _, b := range fn.Blocks {
+			for _, in := range b.Instrs {
+				ci, ok := in.(ssa.CallInstruction)
+				if !ok {
+					continue
+				}
+				for _, c := range w.Callees(ci) {
+					if fnPkgPath(c) == astPath && c.Blocks != nil && !reach[c] {
+						reach[c] = true
+						work = append(work, c)
+					}
+				}
+				if mc, ok := in.(*ssa.MakeClosure); ok {
+					if c, ok := mc.Fn.(*ssa.Function); ok && !reach[c] {
+						reach[c] = true
+						work = append(work, c)
+					}
+				}
+			}
+		}
+	}
+	var fromParam func(v ssa.Value, depth int) bool
+	fromParam = func(v ssa.Value, depth int) bool {
+		if depth > 8 {
+			return false
+		}
+		switch x := v.(type) {
+		case *ssa.Parameter:
+			return true
+		case *ssa.FreeVar:
+			return false // a cell of the enclosing function: local state of one call
+		case *ssa.FieldAddr:
+			return fromParam(x.X, depth+1)
+		case *ssa.IndexAddr:
+			return fromParam(x.X, depth+1)
+		case *ssa.UnOp:
+			if x.Op == token.MUL {
+				return fromParam(x.X, depth+1)
+			}
+		case *ssa.Phi:
+			for _, e := range x.Edges {
+				if fromParam(e, depth+1) {
+					return true
+				}
+			}
+		case *ssa.ChangeType:
+			return fromParam(x.X, depth+1)
+		case *ssa.TypeAssert:
+			return fromParam(x.X, depth+1)
+		case *ssa.Extract:
+			return fromParam(x.Tuple, depth+1)
+		}
+		return false
+	}
+	var fns []*ssa.Function
+	for fn := range reach {
+		fns = append(fns, fn)
+	}
+	sort.Slice(fns, func(i, j int) bool { return funcName(fns[i]) < funcName(fns[j]) })
+	for _, fn := range fns {
+		construct := "writes of " + funcName(fn)
+		var bad []string
+		for _, b := range fn.Blocks {
+			for _, in := range b.Instrs {
+				switch x := in.(type) {
+				case *ssa.Store:
+					if fromParam(x.Addr, 0) {
+						bad = append(bad, fmt.Sprintf("stores through %s at %s", x.Addr.String(), w.pos(x.Pos())))
+					}
+				case *ssa.MapUpdate:
+					if fromParam(x.Map, 0) {
+						bad = append(bad, fmt.Sprintf("updates a map reached from a parameter at %s", w.pos(x.Pos())))
+					}
+				}
+			}
+		}
+		if len(bad) > 0 {
+			r.bad(rule, construct, w.pos(fn.Pos()), strings.Join(uniqSorted(bad), "; ")+": the tree is written while it is being printed or measured")
+		} else {
+			r.ok(rule, construct, w.pos(fn.Pos()), "no store through a parameter")
+		}
 	}
 }
